@@ -62,6 +62,17 @@ CLAIMED = {
          "socket-level scheduling (who gets to write when) is abstracted to rounds",
     technique="Coq invariant proof over executable model + differential correspondence (extracted OCaml vs in-process h2.c)",
     design="5/C06"),
+ "C05": dict(
+    text="An RFC 9113 wire tracker written in Gallina (H2Legal.legal: HEADERS before DATA, END_STREAM once, nothing but RST/WU after it, payload <= peer "
+         "max frame size, SETTINGS/PING acknowledged, contiguous header blocks, nothing after an error GOAWAY, connection errors answered, complete "
+         "requests answered) is extracted and judges every frame h2.c emits for exhaustive (alphabet of 53 valid/invalid frames, length <= 2, 3 in "
+         "thorough) and random client frame sequences incl. every piece size 1..24; Coq theorems over the HTTP/2 model prove the clauses frame-size "
+         "bound, SETTINGS acked once, PING echoed once, connection error final, id order/parity and concurrency limit for every history",
+    note="PARTIAL proof: the one statement 'the model's whole trace is legal' is not proven, only the listed clauses; the model covers the GET/flow-control "
+         "regime (C06 correspondence), the tracker covers everything on the implementation side as a monitor; trusted: Coq kernel, extraction, harness "
+         "glue, tracker's reading of RFC 9113; TLS/ALPN paths not built",
+    technique="Coq-extracted RFC tracker as runtime monitor over exhaustive/random frame sequences + Coq proofs of tracker clauses over the executable HTTP/2 model",
+    design="5/C05"),
 }
 NOT_YET = "no check built yet in this round (planned, see DESIGN.md section 5)"
 
